@@ -256,6 +256,9 @@ def catalog():
     out["poll-fn+slow-cancel/poll"] = prog([{"kind": "poll", "interval": 0.25, "per_sub": {"f0.fn": {"after": None}, "f1.fn": {"after": 3}},
                                              "calls": [{}, {"at": 0.2, "raise": "Fault"}], "cancel": [["vsleep", 0.5, ["ret", True]]]}],
                                            {"script": [["tag"]]}, [["sleep", 0.1], ["cancel", "f0"]])
+    # the callable ends with a BaseException that is not an Exception (SystemExit-like); the pool worker stores it on the future
+    out["callable-baseexception/retry"] = prog([R], {"script": [["raise", "EB"]]})
+    out["callable-baseexception/retry+map"] = prog([R, M], {"script": [["raise", "E0"], ["raise", "EB"]]})
     out["callback/map"] = prog([{"kind": "map", "fn": [["app", "m"]], "err": None}], {"script": [["tag"]]}, [["cancel", "f0"]], cbs=True)
     out["callback/retry+map"] = prog([R, {"kind": "map", "fn": [["app", "m"]], "err": None}], {"script": [["raise", "E0"], ["tag"]]}, None, cbs=True)
     out["map-fn/map+retry"] = prog([{"kind": "map", "fn": [["raiseif", "f0.fn", "Fault", ["app", "m"]]], "err": None}, R], {"script": [["tag"]]}, [["cancel", "f0"]])
